@@ -1,6 +1,6 @@
-(* C18: the except clauses and the default `places` the model assumes (Model/Equal.v: catches_of,
-   almost_catches; the default 7 the check asks for) are the ones read from the source
-   (translators/equal_catches.py -> Gen/Gen_EqualCatches.v). *)
+(* C18: the except clauses of the model (Model/Equal.v: catches_of, almost_catches) are DEFINED from the lists read
+   from the source (translators/equal_catches.py -> Gen/Gen_EqualCatches.v); here: the three classes agree where
+   the model uses one list, and the default `places` the check asks for is the source's. *)
 From Coq Require Import List.
 From Dimod Require Import Base.Util Model.Poly Model.Equal Gen.Gen_EqualCatches.
 Import ListNotations.
